@@ -37,7 +37,7 @@ SCALES = {0.5: (1, 2), 0.75: (3, 4), 1.0: (1, 1), 1.5: (3, 2)}
 TOL = 1e-3          # px, decoded coordinates (float32 pipeline vs exact rationals)
 KNIFE = 2e-3        # a nearest-cell decision closer than ~1e-3 px to the midpoint is a knife edge
 THR = 0.2
-SIG_KNOWN = "labelsreader_no_preprocess_scale_ne_1"
+SIG_KNOWN = "labelsreader_no_preprocess"
 
 
 # ------------------------------------------------------------------ helpers
@@ -159,7 +159,7 @@ def gen_single_case(rng, refine=None):
             "batch": rng.randrange(1, 5), "refine": refine, "n_nodes": n_nodes, "videos": videos}
 
 
-def gen_topdown_case(rng, refine=None, max_instances=None, max_animals=3):
+def gen_topdown_case(rng, refine=None, max_instances=None, counts=(0, 1, 1, 2, 2, 3)):
     nv = rng.choice([1, 1, 2])
     sizes = gen_sizes(rng, nv)
     sc, ms_c, os_c = gen_stage(rng)
@@ -179,7 +179,7 @@ def gen_topdown_case(rng, refine=None, max_instances=None, max_animals=3):
             ys = [y for y in np.arange(2 + step / 2 * rng.random(), H - 3, step)]
             slots = [(x, y) for x in xs for y in ys]
             rng.shuffle(slots)
-            k = min(len(slots), rng.choice([0, 1, 1, 2, 2, 3][:max_animals + 3]))
+            k = min(len(slots), rng.choice(list(counts)))
             animals = []
             for (x0, y0) in slots[:k]:
                 jit = 0.25 * step
@@ -210,7 +210,8 @@ def impl_single(case, provider, vids):
     import sleap_io  # noqa
     flat = [f for v in vids for f in v]
     scene = Scene(flat, case["n_nodes"])
-    labels, svids = stubs.make_labels(vids, node_names=[f"n{i}" for i in range(case["n_nodes"])])
+    labels, svids = stubs.make_labels(vids, node_names=[f"n{i}" for i in range(case["n_nodes"])],
+                                      order=case.get("order"))
     p, net = stubs.build_single(scene, labels.skeletons, scale=case["scale"], os_=case["os"],
                                 max_stride=case["ms"], max_hw=tuple(case["max_hw"]),
                                 batch_size=case["batch"], refinement=case["refine"], threshold=THR)
@@ -233,7 +234,8 @@ def impl_single(case, provider, vids):
 def impl_topdown(case, provider, vids):
     flat = [f for v in vids for f in v]
     scene = Scene(flat, case["n_nodes"])
-    labels, svids = stubs.make_labels(vids, node_names=[f"n{i}" for i in range(case["n_nodes"])])
+    labels, svids = stubs.make_labels(vids, node_names=[f"n{i}" for i in range(case["n_nodes"])],
+                                      order=case.get("order"))
     p, cnet, inet = stubs.build_topdown(
         scene, labels.skeletons, sc=case["sc"], os_c=case["os_c"], ms_c=case["ms_c"], si=case["si"],
         os_i=case["os_i"], ms_i=case["ms_i"], crop_hw=case["crop_hw"], max_hw=tuple(case["max_hw"]),
@@ -292,12 +294,19 @@ def check_single(chk, case):
     s, os_, ms = case["scale"], case["os"], case["ms"]
     mh, mw = case["max_hw"]
     results = {}
+    case_as_coded = False   # LabelsReader rows were fed un-preprocessed tensors and match the as-is model
     for provider in ("LabelsReader", "VideoReader"):
         frames = flat_all if provider == "LabelsReader" else vids[0]
         try:
             rows, dict_sizes = impl_single(case, provider, vids)
         except stubs.StubAmbiguous:
             chk.tag("stub_ambiguous_skipped")
+            return
+        except Exception as e:  # the real pipeline raised on a well-formed input
+            chk.disagree("implementation raised where the model does not", {**case, "provider": provider},
+                         f"raise:{type(e).__name__}: {str(e)[:200]}", "ok")
+            chk.fail(f"C02: SingleInstancePredictor ({provider}) raised {type(e).__name__}: {str(e)[:200]}",
+                     {**case, "provider": provider}, None)
             return
         B = case["batch"]
         want_sizes = [min(B, len(frames) - i) for i in range(0, len(frames), B)]
@@ -361,6 +370,18 @@ def check_single(chk, case):
             bad1, knife1 = cmp(mp1)
             if knife1:
                 chk.knife_edges += 1
+            # structural predicate of F-C02: the tensor has the as-coded (un-preprocessed) shape, which
+            # differs from the repaired one, and the answer is the as-coded model's answer
+            as_coded = False
+            if provider == "LabelsReader":
+                asis_shape, fixed_shape = [int(m0[1]), int(m0[2])], [int(m1[1]), int(m1[2])]
+                # (the two shapes can coincide when the stride padding restores the size; then the
+                #  content scale the stub measured from the pixels tells the two apart)
+                unscaled = s != 1.0 and abs(row["a"] - eff) < 1e-9
+                if row["hw"] == asis_shape and (asis_shape != fixed_shape or unscaled) and not cmp(mp0)[0]:
+                    as_coded = True
+                    case_as_coded = True
+                    chk.tag("labelsreader_as_coded_matches_asIs_model")
             # ---- the ideal-network hypothesis: argmax of the rendered map == model's nearest cell
             shape_ok = [int(m1[1]), int(m1[2])] == row["hw"]
             if not bad1 and (shape_ok or provider == "LabelsReader"):
@@ -398,10 +419,7 @@ def check_single(chk, case):
                 if w:
                     why.append(w)
             if bad1:
-                bad0, _ = cmp(mp0)
-                known = (provider == "LabelsReader" and s != 1.0 and not bad0)
-                if known:
-                    chk.tag("labelsreader_as_coded_matches_asIs_model")
+                if as_coded:
                     chk.fail("C02: LabelsReader frame not resized but decode divides by input_scale: "
                              + "; ".join(why[:2]), {**small, "frame": [fr.video, fr.frame_idx]},
                              {"impl": row["pts"], "model_fixed": model[2 * i], "model_asIs": model[2 * i + 1]},
@@ -427,7 +445,7 @@ def check_single(chk, case):
                 if (pa is None) != (pb is None) or (pa is not None and max(abs(pa[0] - pb[0]), abs(pa[1] - pb[1])) > 1e-4):
                     diff.append((a[1], pa, pb))
         if len(lab) != len(vid) or diff:
-            sigs = [SIG_KNOWN] if (s != 1.0 and chk.hist.get("labelsreader_as_coded_matches_asIs_model")) else []
+            sigs = [SIG_KNOWN] if case_as_coded else []
             chk.fail("C02: LabelsReader and VideoReader return different coordinates for the same frames",
                      {**case, "diff": diff[:3]}, diff[:3], sigs)
 
@@ -450,6 +468,11 @@ def check_topdown(chk, case, providers=("LabelsReader", "VideoReader")):
             rows, group_sizes, cen = impl_topdown(case, provider, vids)
         except stubs.StubAmbiguous:
             chk.tag("stub_ambiguous_skipped")
+            return
+        except Exception as e:
+            chk.disagree("implementation raised where the model does not", small,
+                         f"raise:{type(e).__name__}: {str(e)[:200]}", "ok")
+            chk.fail(f"C02: TopDownPredictor ({provider}) raised {type(e).__name__}: {str(e)[:200]}", small, None)
             return
         if [c["code"] for c in cen] != [f.code for f in frames]:
             chk.disagree("centroid network sees every frame once, in order", small,
